@@ -188,6 +188,13 @@ func (w *world) e2e(n int) (string, string) {
 	if pc.Index != i || pc.Begin != b || !bytes.Equal(pc.Data, w.contentRange(off, off+int64(l))) {
 		return "piece-payload:e2e", fmt.Sprintf("Piece %d %d len %d for Request %d %d %d", pc.Index, pc.Begin, len(pc.Data), i, b, l)
 	}
+	// the block went through the real writer goroutine (its buffer is back in the pool);
+	// blocks come in; the store still holds the reference content
+	w.incoming(2)
+	{
+		lo, hi := w.pieceRange(int(i))
+		w.checkStore(int(i), lo, hi, fmt.Sprintf("e2e %d", n))
+	}
 	// a request cancelled at once is answered by exactly one of Reject / Piece (which one
 	// depends on whether a tick fell between the two messages), never by both
 	ep.send(protocol.Request{Index: 0, Begin: 0, Length: 16384})
